@@ -1,6 +1,6 @@
 (* C04/Properties.v — the property theorems, nothing else.  Each is closed by [exact lemma] and followed
    by Print Assumptions (captured into the evidence by the check driver). *)
-From Verif Require Import Common.Base C04.Model C04.Proofs C04.Proofs2 C04.Proofs3 C04.Proofs4 C04.Proofs5 C04.Proofs6 C04.Proofs7 C04.Harness.
+From Verif Require Import Common.Base C04.Model C04.Proofs C04.Proofs2 C04.Proofs3 C04.Proofs4 C04.Proofs5 C04.Proofs6 C04.Proofs7 C04.Proofs8 C04.Harness C04.Obligations.
 From Coq Require Import Permutation.
 Local Open Scope Z_scope.
 
@@ -215,3 +215,44 @@ Print Assumptions done_error_only_items_refuted.
 Print Assumptions done_at_most_once.
 Print Assumptions done_exactly_once.
 Print Assumptions done_only_after_batches.
+
+(* ================================================================================================== *)
+(* 6. the completion callback in the property's own wording (items), for logs / traces / profiles     *)
+(* ================================================================================================== *)
+(* The batcher instantiated with the payload requests of sections 1-3: MergeSplit = merge_split w sz max, the
+   queue's sizer = the true size, min_size <= max_size (or no limit) as BatchConfig.Validate demands; requests with
+   non-negative measured sizes ([wf_events]).  [krun] is [brun] with the list of consumed requests as ghost;
+   [owner rs i x]: item x belongs to the i-th consumed request. *)
+
+(* "holds items of" implies "attached": every batch in flight that holds an item whose only owner is request i has
+   i's done attached to its done list *)
+Theorem holds_attached : forall w sz max min, 0 <= max -> (max = 0 \/ min <= max) -> forall es,
+  wf_events w sz es ->
+  let '(st, n, rs) := krun w sz max min es in
+  forall b r ds x i, In (b, r, ds) (b_flying st) -> In x (ritems r) ->
+    owner rs i x -> (forall j, owner rs j x -> j = i) -> attached (b_refs st) ds i = true.
+Proof. exact holds_attached_l. Qed.
+Print Assumptions holds_attached.
+
+(* 'if' half of "reports an error iff one of those batches failed", in items: if the export of a batch holding an
+   item of request i (and of no other request) returns an error, then whatever i's callback reports, now or later,
+   is an error *)
+Theorem done_error_if_items : forall w sz max min, 0 <= max -> (max = 0 \/ min <= max) -> forall es1 es2 b,
+  wf_events w sz es1 ->
+  let '(st, n, rs) := krun w sz max min es1 in
+  forall r ds x i e, fly_req b (b_flying st) = Some (r, ds) -> In x (ritems r) ->
+    owner rs i x -> (forall j, owner rs j x -> j = i) ->
+    In (i, e) (b_fired (fst (brun (msplitC w sz max) (sizeofC w sz) min (es1 ++ EResult b true :: es2)))) -> e = true.
+Proof. exact done_error_if_items_l. Qed.
+Print Assumptions done_error_if_items.
+
+(* 'only if' half in items is false of the code, also on payload requests with the bytes sizer
+   (C04-DONE-FOREIGN-ERROR): batch 0 holds only record 1 (request 0) and fails; request 1 (records 2, 3, 4, exported
+   successfully in batches 1, 2, 3) reports an error.  In terms of ATTACHED batches both halves hold: done_error_iff. *)
+Theorem done_error_only_items_refuted_payload :
+  let run es := fst (brun (msplitC w_unit Bytes 120) (sizeofC w_unit Bytes) 120 es) in
+  map (fun f => (fst (fst f), map iid (ritems (snd (fst f))))) (b_flying (run (firstn 3 fe_hist)))
+    = [(0%nat, [1]); (1%nat, [2]); (2%nat, [3]); (3%nat, [4])] /\
+  b_fired (run fe_hist) = [(0%nat, true); (1%nat, true)].
+Proof. exact foreign_error_payload_witness. Qed.
+Print Assumptions done_error_only_items_refuted_payload.
